@@ -1,0 +1,46 @@
+//go:build verif
+
+package hsrv
+
+// Contracts for the verification machinery in /verif (govc).  This file is
+// comment-only and is compiled only with -tags verif.
+
+//@ type Server as s
+//@   nonnil sl, iob, och, defTmpl
+
+//@ func remoteHost(r) (h)
+//@   pure
+//@   trusted
+
+// ---- operator notices (C10): the line sent is the formatted message, and
+// client-derived text is never in the format position.
+
+//@ func Server.Printf(s, color, format, v)
+//@   props C10
+//@   ghost n int = 0
+//@   on send s.och(cl): assert(cl.Line == sprintf(format, v) && cl.Color == color && cl.NoTimestamp && !cl.Plain, "line_is_the_formatted_message"); n++
+//@   ensures one_line: n == 1
+
+//@ func Server.Logf(s, color, format, v)
+//@   props C10
+//@   ghost n int = 0
+//@   on send s.och(cl): assert(cl.Line == sprintf(format, v) && cl.Color == color && !cl.Plain, "line_is_the_formatted_message"); n++
+//@   ensures one_line: n == 1
+
+//@ func Server.ErrorLogf(s, format, v)
+//@   props C10
+//@   ghost n int = 0
+//@   on enter Server.Logf(ss, c, f, vv): assert(ss == s && c == ErrorColor && sprintf(f, vv) == sprintf(format, v), "message_passed_on_unchanged"); n++
+//@   ensures one_line: n == 1
+
+//@ func Server.RLogf(s, color, r, format, v)
+//@   props C10
+//@   ghost n int = 0
+//@   on enter Server.Logf(ss, c, f, vv): assert(ss == s && c == color && sprintf(f, vv) == "[" + remoteHost(r) + "] " + sprintf(format, v), "notice_is_host_plus_message_verbatim"); n++
+//@   ensures one_line: n == 1
+
+//@ func Server.RErrorLogf(s, r, format, v)
+//@   props C10
+//@   ghost n int = 0
+//@   on enter Server.ErrorLogf(ss, f, vv): assert(ss == s && sprintf(f, vv) == "[" + remoteHost(r) + "] " + sprintf(format, v), "notice_is_host_plus_message_verbatim"); n++
+//@   ensures one_line: n == 1
